@@ -43,4 +43,18 @@ PROPS = {
              'every case is non-trivial (>=1 bundle built and decomposed).',
         exhaustive=dict(quick=False, thorough=False),
         assumptions=['reference bundle encoder refosc.h', 'elements followed by >=4 zero bytes when passed to rtosc_bundle']),
+    'C07': dict(
+        level_text='Runtime monitoring of untrusted input: each byte buffer is copied into an exact-size block that ends at a PROT_NONE page, rtosc_message_length and rtosc_valid_message_p are run on it (an out-of-bounds read faults, a hang trips the watchdog, a length > n fails), and for every accepted buffer all accessors (argument string, count, type, argument by index, iterator) are called with explicit range checks on returned string/blob pointers and compared with an independent lenient OSC decoder. Inputs: exhaustive enumeration of all buffers up to 7/8 bytes over an 8-symbol alphabet plus all tagged 12/16-byte messages of a small family, and structure-aware mutation of valid messages (truncation, non-zero padding, crafted blob lengths incl. 32-bit wrap values, bundle size words, splices) under AddressSanitizer.',
+        level_note='Trusts the MMU (guard page directly behind the n bytes; reads before the buffer are only caught under ASan when they leave the mapping), harness/refosc.h lenient decoder, the 20 s no-progress watchdog for termination. Coverage-guided fuzzing is not part of the registered check.',
+        technique='guard-page + reference-decoder monitor over exhaustive small inputs and structure-aware mutants (plain and AddressSanitizer builds)',
+        stages=[dict(harness='c07', variant='plain', mode='exh', quick=5542473, thorough=99795529, min_per_shard=100000,
+                     need=['exh.family_raw', 'exh.family_tagged', 'verdict.accepted', 'verdict.rejected', 'accepted.with_args']),
+                dict(harness='c07', variant='asan', mode='mut', quick=100000, thorough=5000000,
+                     need=['mut.accepted_after_mutation', 'mut.unmodified', 'accessor.iterator'])],
+        rule='exh: every buffer of length 0..7 (quick) / 0..8 (thorough) over {00 / , s b 01 ff #} and every "/a" message with 4 tag bytes '
+             'over 8 symbols x 4/8 payload bytes over 4/3 symbols x 3 truncations (exhaustive within that scope); mut: valid message + 0..3 '
+             'mutations. distinct is measured on the mutation stage by hash of the bytes (and sampled 1/16384 on the exhaustive stage, whose '
+             'cases are distinct by construction); non-trivial = every buffer (each is measured and validated).',
+        exhaustive=dict(quick=True, thorough=True),
+        assumptions=['exhaustive only inside the stated small scope; mutation stage is random', 'lenient reference decoder refosc.h']),
 }
